@@ -128,6 +128,40 @@ Fixpoint krun (s : kst) (l : list kev) : option kst :=
   | e :: l' => match kstep s e with Some s' => krun s' l' | None => None end
   end.
 
+(* ---------- (2b) frr-k8s variant with the emission as a blocking send ----------
+   `out <- NewReloadEvent()` blocks until the channel source receives: timer
+   expiry ([DExpire]: timerSet = false, the loop is now in the send) and delivery
+   ([DDeliver]) are two steps; while the loop is in the send nothing is received
+   from `in` ([DNotify] not enabled: the notifier blocks).  [DDrop] is NOT a step
+   of the code: it is what a non-blocking send would add when nobody receives. *)
+Inductive dkev := DNotify | DExpire | DDeliver | DDrop.
+Record dkst := mk_dk { dk_timer : bool; dk_sending : bool; dk_pending : bool; dk_out : N }.
+Definition dkinit : dkst := mk_dk false false false 0.
+
+Definition dkstep (allow_drop : bool) (s : dkst) (e : dkev) : option dkst :=
+  match e with
+  | DNotify => if dk_sending s then None else Some (mk_dk true false true (dk_out s))
+  | DExpire => if dk_timer s && negb (dk_sending s) then Some (mk_dk false true (dk_pending s) (dk_out s)) else None
+  | DDeliver => if dk_sending s then Some (mk_dk (dk_timer s) false false (N.succ (dk_out s))) else None
+  | DDrop => if allow_drop && dk_sending s then Some (mk_dk (dk_timer s) false (dk_pending s) (dk_out s)) else None
+  end.
+
+Fixpoint dkrun (allow_drop : bool) (s : dkst) (l : list dkev) : option dkst :=
+  match l with
+  | [] => Some s
+  | e :: l' => match dkstep allow_drop s e with Some s' => dkrun allow_drop s' l' | None => None end
+  end.
+
+Definition dk_abs (s : dkst) : kst := mk_k (dk_timer s || dk_sending s) (dk_pending s) (dk_out s).
+
+Fixpoint dk_collapse (l : list dkev) : list kev :=
+  match l with
+  | [] => []
+  | DNotify :: l' => KNotify :: dk_collapse l'
+  | DDeliver :: l' => KFire :: dk_collapse l'
+  | _ :: l' => dk_collapse l'
+  end.
+
 (* ---------- frr.go validateReload (lines 446-490) as a function ----------
    input: the whitespace-separated fields of the status file (None = the file
    cannot be read), the previously seen time stamp; status word 1 = "failure".
